@@ -17,6 +17,9 @@ Record c04_case := {
   l_cle : list (list bool);                                      (* L[i] <= L[j] on the concept objects *)
   l_rebuilt : list table;       (* the tables the harness read off labels + order, through each of the
                                    four order oracles: ancestors, descendants, leq_elements, <= *)
+  l_nx_dir : nat;               (* to_networkx asked after the warm-up, before any label: 0 down 1 up 2 undirected *)
+  l_nx_nodes : list nat;        (* its nodes, ascending *)
+  l_nx_adj : list (list nat);   (* successors (neighbours) of every index in that graph, ascending *)
   l_label_ok : bool             (* concept_lattice_label_func formats exactly these label sets *)
 }.
 
@@ -31,6 +34,12 @@ Definition c04_same_as_model (c : c04_case) : bool :=
   lists_eqb (map (fun i => sort_nat (map (fun m => nth m (l_anames c) 0) (new_intent_i cs i))) (seq 0 n))
             (l_new_int c) &&
   lists_eqb (per_index n (ancestors_nocache cs)) (l_anc c) &&
+  lists_eqb (per_index n (fun i => match l_nx_dir c with
+                                   | 0 => children_nocache cs i
+                                   | 1 => parents_nocache cs i
+                                   | _ => children_nocache cs i ++ parents_nocache cs i
+                                   end)) (l_nx_adj c) &&
+  nat_list_eqb (l_nx_nodes c) (seq 0 n) &&
   lists_eqb (per_index n (descendants_nocache cs)) (l_desc c) &&
   matrix_eqb (matrix n (leq_i cs)) (l_leq c) &&
   matrix_eqb (matrix n (leq_i cs)) (l_cle c).
@@ -62,7 +71,15 @@ Definition c04_spec_ok (c : c04_case) : bool :=
                (fun a b => nth b (nth a (l_leq c) []) false)) t &&
   table_eqb (rebuild_rel h w (l_new_ext_i c) (l_new_int_i c)
                (fun a b => nth b (nth a (l_cle c) []) false)) t &&
-  Nat.eqb (length (l_rebuilt c)) 4 && forallb (fun t' => table_eqb t' t) (l_rebuilt c) &&
+  (* the exported diagram shows every concept and exactly the cover relation *)
+  nat_list_eqb (l_nx_nodes c) (seq 0 n) &&
+  lists_eqb (l_nx_adj c)
+            (map (fun i => match l_nx_dir c with
+                           | 0 => spec_children exts i
+                           | 1 => spec_parents exts i
+                           | _ => canon n (spec_children exts i ++ spec_parents exts i)
+                           end) (seq 0 n)) &&
+  Nat.leb 4 (length (l_rebuilt c)) && forallb (fun t' => table_eqb t' t) (l_rebuilt c) &&
   l_label_ok c.
 
 Definition c04_check (c : c04_case) : nat := code_of (c04_same_as_model c) (c04_spec_ok c).
